@@ -16,6 +16,10 @@ Groups of cases (one forked worker call per case; `g` selects the group):
   rot  full product (number of RoT keys 1..4) x (used index) x key set (x CA flag) per protocol class.
   bind binding matrix per protocol class: responses for every (credential_i, challenge_j, uuid_k)
        verified against every other triple.
+  hist object histories per protocol class: from a new / signed / parsed credential object every sequence
+       of <= 3 (quick) / 4 (thorough) operations over {sign, export, parse(export) and go on with the parsed
+       object, set one field, set another field, set two fields, set two fields to second values}; every
+       export is judged by the same byte-level oracle against the object's *current* values.
   cli  `nxpdebugmbox dat dc export` through click's CliRunner for one representative per protocol
        class — only when the application imports in this environment (reported otherwise).
 
@@ -28,7 +32,9 @@ symptom cannot depend on the key size):
   C15.dc-tamper     a bit flip in a field region leaves the independent verification intact
   C15.dc-roundtrip  parse(export(dc)) raises / differs field by field / is not == dc / re-exports other bytes;
                     the builder hands out a credential whose DCK the format cannot carry
-  C15.rot-hash      calculate_hash() raises or differs from the documented construction over the same keys
+  C15.rot-hash      calculate_hash() raises or differs from the documented construction over the same keys, or from
+                    what SPSDK's image tools give for the same ordered keys (RKHTv1 / CertBlockV1, RKHTv21 / CertBlockV21,
+                    AHAB SRK table)
   C15.dac-parse     a challenge built from bytes parses to other field values / does not re-export identically
   C15.dac-validate  a challenge carrying the credential's own version/socc/uuid/RoT hash is refused
   C15.dar-embeds    response does not embed the credential bytes, the authentication beacon (and the uuid)
@@ -577,6 +583,79 @@ def judge_classic_object(p: dict, dc: Any, data: bytes, parsed: Optional[dict], 
         st, d2 = call(dc.export)
         if st != "ok" or d2 != data:
             o.v("dc-roundtrip", "export-changed-by-calculate_hash", "")
+    # cross-tool agreement: the credential's RoT hash equals what SPSDK's image tools compute for the same ordered keys
+    st_h, h_now = call(dc.calculate_hash)
+    if st_h == "ok":
+        if True:
+            differing = []
+            for tool, (ts, tv) in image_tool_hashes(p["meta"], tuple(p["keys"]), p["used"], p["ca"]).items():
+                o.c("rot_hash_image_tool_comparisons")
+                if ts == "ok":
+                    if tv != h_now:
+                        differing.append((tool, tv))
+                elif ts == "spsdk":
+                    o.c(f"image_tool_refuses_keys_{tool}")  # e.g. certificate block v2.1 has no P-521
+                else:
+                    o.observe(f"{p['cls']}:image-tool:{tool}:{ts}: {tv}")
+            if differing:
+                lz = any(R.ilen(knum(k)[c]) < R.COORD_BY_CURVE[knum(k)["curve"]] for k in p["keys"] if knum(k)["type"] == "ecc" for c in ("x", "y"))
+                o.v("rot-hash", "differs-from-image-tools:" + "+".join(t for t, _ in differing),
+                    f"keys {p['keys']}{' (a coordinate starts with a zero byte)' if lz else ''}: calculate_hash() {h_now.hex()[:32]}.. "
+                    f"{differing[0][0]} {differing[0][1].hex()[:32]}..; own construction {want_hash.hex()[:32]}..", scope=p["meta"])
+
+
+_TOOL_HASH: dict = {}
+
+
+def image_tool_hashes(meta: str, keys: tuple, used: int, ca: bool) -> dict:
+    """RoT hash of the ordered key set by SPSDK's image tools: tool -> ('ok', hash) | ('spsdk', msg) | (exception, msg).
+    rsa: RKHTv1.from_keys, CertBlockV1 over the fixture certificates of the same keys; ecc: RKHTv21.from_keys,
+    CertBlockV21; ele: the AHAB SRK table built by SRKTable.load_from_config.  Cached per process (pure functions of the keys)."""
+    ident = (meta, keys, used if meta == "ecc" else 0, ca)
+    if ident in _TOOL_HASH:
+        return _TOOL_HASH[ident]
+    from spsdk.crypto.utils import extract_public_key
+
+    paths = [kpath(k, "pub.pem") for k in keys]
+    out: dict = {}
+    if meta == "rsa":
+        from spsdk.crypto.certificate import Certificate
+        from spsdk.utils.crypto.cert_blocks import CertBlockV1
+        from spsdk.utils.crypto.rkht import RKHTv1
+
+        out["RKHTv1"] = call(lambda: RKHTv1.from_keys(paths).rkth())
+
+        def cbv1() -> bytes:
+            cb = CertBlockV1()
+            for i, k in enumerate(keys):
+                bits, r = k.split("_")
+                cb.set_root_key_hash(i, Certificate.parse(fixtures.read(f"certs/{bits}_root{r}_nonca.der")))
+            return cb.rkth
+
+        out["CertBlockV1"] = call(cbv1)
+    elif meta == "ecc":
+        from spsdk.utils.crypto.cert_blocks import CertBlockV21
+        from spsdk.utils.crypto.rkht import RKHTv21
+
+        out["RKHTv21"] = call(lambda: RKHTv21.from_keys(paths).rkth())
+
+        def cbv21() -> bytes:
+            cb = CertBlockV21(root_certs=[extract_public_key(x) for x in paths], used_root_cert=used)
+            cb.calculate()
+            return cb.rkth
+
+        out["CertBlockV21"] = call(cbv21)
+    elif meta == "ele":
+        from spsdk.image.ahab.ahab_srk import SRKTable
+
+        def srk() -> bytes:
+            t = SRKTable.load_from_config({"flag_ca": ca, "srk_array": paths})
+            t.update_fields()
+            return t.compute_srk_hash()
+
+        out["AhabSRKTable"] = call(srk)
+    _TOOL_HASH[ident] = out
+    return out
 
 
 # ---------------------------------------------------------------------------------------------
@@ -1073,8 +1152,202 @@ def judge_dar2(p: dict, dc: Any, data: bytes, parsed: dict, o: Obs, tmp: str, ba
     # the certificate is not covered by the DCK signature (it carries the SRK's): binding to the credential = embedding
 
 
-WORKERS = {"fam": w_classic, "lat": w_classic, "rot": w_classic, "bind": w_bind}
-WORKERS2 = {"fam": w_ele2, "lat": w_ele2}
+# ---------------------------------------------------------------------------------------------
+# object histories: sign / modify / export / parse on ONE credential object
+
+
+HIST_OPS = ["S", "E", "P", "Ma", "Mb", "Mc", "Md"]  # sign, export (judged), parse(export) and go on with the parsed object, 4 modifications
+HIST_STARTS = ["new", "signed", "parsed"]
+
+
+def hist_mods(layout: str) -> dict:
+    """Modifications: one field / another field / two fields / two fields with second values."""
+    if layout == "ele2":
+        return {"Ma": {"socu": 1}, "Mb": {"beacon": 0xFFFF}, "Mc": {"socc": 0, "socu": U32}, "Md": {"beacon": 1, "socu": 0}}
+    return {"Ma": {"cc_socu": 1}, "Mb": {"uuid": b"\xff" * 16}, "Mc": {"socc": 0, "cc_beacon": 0xFFFF}, "Md": {"cc_vu": 1, "cc_socu": U32}}
+
+
+def hist_sequences(length: int, first: Optional[str]) -> list[tuple]:
+    """All operation sequences of length <= `length` that end with an export (every judged point of every sequence of
+    that length is a prefix of one of them), optionally only those starting with `first`."""
+    import itertools
+
+    out = []
+    for n in range(1, length + 1):
+        for head in itertools.product(HIST_OPS, repeat=n - 1):
+            seq = head + ("E",)
+            if first is None or seq[0] == first:
+                out.append(seq)
+    return out
+
+
+_PUB: dict = {}
+
+
+def pub_for(path: str):
+    from spsdk.crypto.utils import extract_public_key
+
+    if path not in _PUB:
+        _PUB[path] = extract_public_key(path)
+    return _PUB[path]
+
+
+def hist_new_object(p: dict):
+    """A fresh, unsigned credential object through the public constructors (key objects and the signature provider are
+    cached per process; RoT meta / certificate objects are new every time)."""
+    from spsdk.dat import debug_credential as dcm
+
+    if p["layout"] == "ele2":
+        from spsdk.image.ahab.ahab_certificate import AhabCertificate
+        from spsdk.image.ahab.ahab_srk import SRKRecordV2
+
+        cert = AhabCertificate(permissions=AhabCertificate.create_permissions(["debug"]),
+                               permissions_data=struct.pack("<LLL", p["socc"], p["val"]["socu"], 0), fuse_version=p["val"]["fuse"],
+                               uuid=p["uuid"], public_key_0=SRKRecordV2.create_from_key(pub_for(kpath(p["dck"], "pub.pem"))),
+                               signature_provider_0=sp_for(kpath(p["skey"], "priv.pem"), True))
+        return dcm.DebugCredentialEdgeLockEnclaveV2(certificate=cert)
+    val = p["val"]
+    paths = [kpath(k, "pub.pem") for k in p["keys"]]
+    klass = {"rsa": dcm.DebugCredentialCertificateRsa, "ecc": dcm.DebugCredentialCertificateEcc, "ele": dcm.DebugCredentialEdgeLockEnclave}[p["meta"]]
+    mklass = {"rsa": dcm.RotMetaRSA, "ecc": dcm.RotMetaEcc, "ele": dcm.RotMetaEdgeLockEnclave}[p["meta"]]
+    meta = mklass.load_from_config({"rot_meta": paths, "rot_id": p["used"], "flag_ca": p["ca"]})
+    return klass(version=dcm.ProtocolVersion(f"{p['ver'][0]}.{p['ver'][1]}"), socc=p["socc"], uuid=p["uuid"], rot_meta=meta,
+                 dck_pub=pub_for(kpath(p["dck"], "pub.pem")), cc_socu=val["socu"], cc_vu=val["vu"], cc_beacon=val["beacon"],
+                 rot_pub=pub_for(paths[p["used"]]), signature_provider=sp_for(kpath(p["keys"][p["used"]], "priv.pem"), p["pss"]))
+
+
+def w_hist(case: dict) -> dict:
+    """Histories on one object.  The harness tracks the field values and the values the current signature was made over;
+    every export is judged by the unchanged oracle: the bytes before the signature equal the model of the *current*
+    values, and - when sign() was called after the last change - the signature verifies under the named RoT key."""
+    from spsdk.dat import debug_credential as dcm
+
+    cls = case["cls"]
+    o = Obs(cls)
+    ele2 = CLASSES[cls]["layout"] == "ele2"
+    p = plan_ele2({**case, "dep": {}}) if ele2 else plan_classic({**case, "dep": {}})
+    layout = p["layout"]
+    mods = hist_mods(layout)
+    if ele2:
+        base_fields = {"socc": p["socc"], "socu": p["val"]["socu"], "beacon": 0}
+        signer, dck = knum(p["skey"]), knum(p["dck"])
+    else:
+        base_fields = {"socc": p["socc"], "uuid": p["uuid"], "cc_socu": p["val"]["socu"], "cc_vu": p["val"]["vu"], "cc_beacon": p["val"]["beacon"]}
+        rot_keys, dck = [knum(k) for k in p["keys"]], knum(p["dck"])
+    worst: dict = {}  # (clause, disc) -> (sequence length, detail)
+
+    def note(clause: str, disc: str, seq: tuple, upto: int, detail: str) -> None:
+        key = (clause, disc)
+        txt = f"start={case['start']}: {','.join(seq[:upto + 1])}: {detail}"
+        if key not in worst or upto < worst[key][0]:
+            worst[key] = (upto, txt)
+
+    def attach_provider(obj: Any) -> None:
+        if ele2:
+            obj.certificate.signature_0.signature_provider = sp_for(kpath(p["skey"], "priv.pem"), True)
+        else:
+            obj.signature_provider = sp_for(kpath(p["keys"][p["used"]], "priv.pem"), p["pss"])
+
+    def parse_back(data: bytes):
+        return call((dcm.DebugCredentialEdgeLockEnclaveV2 if ele2 else type(hist_new_object(p))).parse, data)
+
+    def judge_export(data: bytes, fields: dict, sig_fields: Optional[dict], seq: tuple, i: int) -> None:
+        o.c("hist_exports_judged")
+        try:
+            if ele2:
+                parsed = R.parse_cert_v2(data)
+                model = R.build_cert_v2_body(fields["socc"], fields["socu"], fields["beacon"], p["val"]["fuse"], p["uuid"], dck, signer)
+                key, pss = signer, True
+            else:
+                parsed = R.parse_dc(data, layout)
+                model = R.build_dc_body(layout, p["ver"], fields["socc"], fields["uuid"], fields["cc_socu"], fields["cc_vu"],
+                                        fields["cc_beacon"], rot_keys, p["used"], dck, p["ca"])
+                key, pss = parsed["rot_key"], p["pss"]
+        except (R.DatError, struct.error) as e:
+            note("dc-bytes", "history:unreadable", seq, i, f"{type(e).__name__}: {e}")
+            return
+        body = data[:parsed["sig_off"]]
+        if body != model:
+            note("dc-bytes", f"history:differs-in:{first_region(parsed['regions'], body, model)}", seq, i,
+                 "exported fields are not the object's current values")
+        if not ele2 and key != rot_keys[p["used"]]:
+            note("dc-bytes", "history:rot-key-differs", seq, i, "")
+        if sig_fields == fields:
+            o.c("hist_signatures_verified")
+            if not R.verify_sig(key, body, parsed["signature"], pss=pss, fast=True):
+                note("dc-signature", "history:export-after-sign-does-not-verify", seq, i,
+                     "sign() was called after the last change, yet the signature does not verify under the named RoT key "
+                     "over the bytes as exported")
+        else:
+            o.c("hist_exports_of_objects_changed_since_sign")  # the caller's omission: bytes judged, signature not
+
+    for seq in hist_sequences(case["L"], case.get("first")):
+        o.c("hist_sequences")
+        st, obj = call(hist_new_object, p)
+        if st != "ok":
+            raise core.HarnessError(f"history: cannot construct the {cls} object: {obj}")
+        fields = dict(base_fields)
+        sig_fields: Optional[dict] = None
+        if case["start"] in ("signed", "parsed"):
+            st, r = call(obj.sign)
+            if st != "ok":
+                raise core.HarnessError(f"history: first sign() of a {cls} object failed: {r}")
+            sig_fields = dict(fields)
+        if case["start"] == "parsed":
+            st, data = call(obj.export)
+            st2, obj = parse_back(data) if st == "ok" else (st, data)
+            if st != "ok" or st2 != "ok":
+                raise core.HarnessError(f"history: parse(export()) of a fresh {cls} object failed: {obj}")
+            attach_provider(obj)
+        for i, op in enumerate(seq):
+            if op == "S":
+                st, r = call(obj.sign)
+                if st == "ok":
+                    sig_fields = dict(fields)
+                elif st == "spsdk":
+                    o.c("hist_sign_refused")
+                else:
+                    o.observe(f"{cls}:history-sign:{st}: {r}")
+                    break
+            elif op in mods:
+                for f, v in mods[op].items():
+                    setattr(obj, f, v)
+                    fields[f] = v
+            elif op == "E":
+                st, data = call(obj.export)
+                if st == "ok":
+                    judge_export(data, fields, sig_fields, seq, i)
+                elif st == "spsdk":
+                    o.c("hist_export_refused")  # not signed yet
+                else:
+                    o.observe(f"{cls}:history-export:{st}: {data}")
+                    break
+            elif op == "P":
+                st, data = call(obj.export)
+                if st != "ok":
+                    o.c("hist_export_refused")
+                    break  # nothing to parse: the rest of the sequence is covered by the sequence without this step
+                st, back = parse_back(data)
+                o.c("hist_parses")
+                if st != "ok":
+                    note("dc-roundtrip", f"history:parse:{sym(st)}", seq, i, str(back))
+                    break
+                attach_provider(back)
+                got = ({"socc": back.socc, "socu": back.socu, "beacon": back.beacon} if ele2 else
+                       {"socc": back.socc, "uuid": bytes(back.uuid), "cc_socu": back.cc_socu, "cc_vu": back.cc_vu, "cc_beacon": back.cc_beacon})
+                bad = sorted(f for f in fields if got[f] != fields[f])
+                if bad:
+                    note("dc-roundtrip", f"history:parsed-object-field:{'+'.join(bad)}", seq, i, f"{ {f: (fields[f], got[f]) for f in bad} }")
+                    break
+                obj = back  # its signature is the exported one: made over sig_fields
+    for (clause, disc), (_, txt) in sorted(worst.items()):
+        o.v(clause, disc, txt, scope=layout)
+    o.distinct.append(f"hist|{cls}|{case['start']}|{case.get('first')}|{case['L']}")
+    return o.result()
+
+
+WORKERS = {"fam": w_classic, "lat": w_classic, "rot": w_classic, "bind": w_bind, "hist": w_hist}
+WORKERS2 = {"fam": w_ele2, "lat": w_ele2, "hist": w_hist}
 
 
 def w_dispatch(case: dict) -> dict:
@@ -1243,6 +1516,19 @@ def build_cases(tier: str, seed: int, ftab: list[dict], cli: bool) -> tuple[list
     # slow classes (RSA-4096 key loads) first, for an even load at the end of the run
     lat.sort(key=lambda c: 0 if CLASSES[c["cls"]]["pool"] == "rsa4096" else (1 if CLASSES[c["cls"]]["pool"] == "rsa2048" else 2))
     cases += [c for c in lat if c not in cases[:3]]
+    # hist: object histories for every protocol class, on the first representative of each layout kind
+    hist_done: set = set()
+    for key, fams in rep_list.items():
+        if fams[0]["kind"] in hist_done:
+            continue
+        hist_done.add(fams[0]["kind"])
+        for cls in classes_for(fams[0]):
+            for start in HIST_STARTS:
+                for first in ([None] if quick else HIST_OPS):
+                    c = {"g": "hist", "cls": cls, "fam": fkey(fams[0]), "start": start, "L": 3 if quick else 4, "seed": seed}
+                    if first:
+                        c["first"] = first
+                    cases.append(c)
     # rot x keyset (x ca) full product on the first representative of each class key (quick: of each layout kind —
     # the RoT meta code reads no database value besides the layout)
     layouts_done: set = set()
